@@ -67,6 +67,7 @@ def main() -> None:
             lex, par, tree = P.independent_parse(stream)
             E = bool(par)
             items = _count_items(tree)
+            nodes = _count_items(tree, nodes=True)
             (work / "p.zo").write_bytes(data)
             try:
                 page = walk_zorg_page(work, Path("p.zo"), verbose=True)
@@ -76,7 +77,7 @@ def main() -> None:
                 return
         finally:
             os.dup2(keep_err, 2)
-        if E and items == 0 and "noteless-broken-page" in known_open:
+        if E and nodes == 0 and "noteless-broken-page" in known_open:
             return
         if E and not page.has_errors:
             fail(data, "syntax-error-not-flagged")
